@@ -39,6 +39,24 @@ def main(p):
     warnings.filterwarnings("ignore")
     rng = random.Random(p.get("seed", 0))
     fails, cases, distinct = [], 0, 0
+    # history: the sweep runs in a process that has already evaluated the supernova class on models that are zero / negative / NaN on its integration grid (the classes
+    # share one process in a fitting run; whatever that evaluation leaves behind in numpy's process-wide state is part of what the other classes see)
+    try:
+        import esr.fitting.likelihood as L_
+        pl = L_.PanthLikelihood.__new__(L_.PanthLikelihood)
+        pl.delta_z, pl.min_nz, pl.mu_const = 0.05, 10, 0.0
+        for model in (lambda xx, *a: 0.0 * xx, lambda xx, *a: -1.0 - 0.0 * xx, lambda xx, *a: xx - 1.5, lambda xx, *a: float("nan") * xx):
+            pl.data_x = pl.data_mask = None
+            try:
+                pl.get_pred(np.array([1.1, 1.5, 2.0]), [], model)
+            except Exception:
+                pass
+            try:
+                pl.get_pred(np.array([1.1, 1.5, 2.0]), [1.0], model)
+            except Exception:
+                pass
+    except Exception:
+        pass
     classes = ["GaussLikelihood", "PoissonLikelihood", "CCLikelihood", "MockLikelihood", "MSE"]
     specials = [float("nan"), float("inf"), float("-inf"), -1.5, 0.0, complex(1.0, 2.0), complex(2.0, 0.0)]
     for cls in classes:
